@@ -202,7 +202,9 @@ fn run(req: &str) -> String {
 
 #[derive(Clone, Copy)]
 struct Mix {
-    /// 1/n of names get special characters (0 = never)
+    /// 1/n of names get special characters *including non-ASCII ones* (0 = never; then one name in
+    /// three still gets ASCII specials — white space, delimiters, `#`, controls — which the writer
+    /// escapes and both readers must give back)
     odd_names: u64,
     cr_strings: bool,
     ref_like: bool,
@@ -217,6 +219,14 @@ fn gen_name(rng: &mut Rng, mix: Mix) -> String {
     if mix.odd_names > 0 && rng.chance(1, mix.odd_names) {
         let k = 1 + rng.below(2) as usize;
         text(rng, 5, k)
+    } else if rng.chance(1, 3) {
+        // ASCII only: every non-ASCII char becomes one of the bytes the writer must escape
+        let k = 1 + rng.below(3) as usize;
+        let s: String = text(rng, 5, k)
+            .chars()
+            .map(|c| if c.is_ascii() { c } else { *rng.pick(&['#', ' ', '/', '\x00', '(', '{', '\x7f', '%', '~', '!']) })
+            .collect();
+        if s == "R" && !mix.ref_like { "R#".into() } else { s }
     } else {
         let s = plain_ident(rng, 6);
         // a plain name that is exactly "R" is the reference look-alike; only on request
@@ -492,6 +502,14 @@ fn gen(rng: &mut Rng, tier: Tier) -> Vec<Case> {
         push_obj(&mut cases, "d", &T::Name(format!("A{}B", c)), "edge-name");
         push_obj(&mut cases, "d", &T::Str(format!("a{}b", c)), "edge-str");
         push_obj(&mut cases, "d", &T::Dict(vec![(format!("{}k", c), T::Int(1))]), "edge-key");
+    }
+    // 4b. every ASCII byte inside a name and inside a key (the escape table of
+    //     `escape_pdf_name_bytes`, boundaries 0x20/0x21 and 0x7e/0x7f included), 16 per tree
+    for base in (0u8..128).step_by(16) {
+        let names: Vec<T> = (base..base + 16).map(|b| T::Name(format!("A{}b", b as char))).collect();
+        push_obj(&mut cases, "d", &T::Arr(names), "name-bytes");
+        let keys: Vec<(String, T)> = (base..base + 16).map(|b| (format!("{}", b as char), T::Int(b as i64))).collect();
+        push_obj(&mut cases, if base == 32 { "o" } else { "d" }, &T::Dict(keys), "key-bytes");
     }
     // 5. the object-stream path (few: every write is a multi-megabyte file)
     for _ in 0..(if tier == Tier::Quick { 6 } else { 60 }) {
